@@ -368,6 +368,7 @@ class Verifier(Calls):
         ax.append(z3.ForAll([h, e], cl._hist_len(Hist.snoc(h, e)) == cl._hist_len(h) + 1))
         ax.append(z3.Length(so.dict_order(so.EMPTY_KW)) == 0)
         ax.append(z3.ForAll([km], (z3.Length(so.dict_order(km)) == 0) == (km == so.EMPTY_KW)))
+        ax.extend(cl.deliver_axioms())
         for name, vars_, expr in self.reg.axioms:
             ax.append(self.axiom_term(vars_, expr))
         return ax
